@@ -899,7 +899,7 @@ pub fn regen_main(p: &dyn Property, tier: Tier, seed: u64, index: u64, cases: u6
 pub fn replay_case(p: &dyn Property, case: &Value, st: &mut Stats) -> Result<CheckResult, String> {
     // a panic that escapes a check (every call the checks expect to panic is caught where it is made) is a
     // failure of the case, not of the run
-    let mut one = |c: &Value, st: &mut Stats| -> Result<CheckResult, String> {
+    let one = |c: &Value, st: &mut Stats| -> Result<CheckResult, String> {
         match crate::observe::guarded(|| p.replay(c, st)) {
             Ok(r) => r,
             Err(msg) => Ok(Err(Failure { signature: "panic/outside-the-guarded-calls".into(), message: format!("the check of this case panicked: {msg}") })),
